@@ -43,3 +43,16 @@ func (r *RNG) Fork() *RNG { return NewRNG(r.U64()) }
 
 // Pick returns one element.
 func Pick[T any](r *RNG, xs []T) T { return xs[r.Intn(len(xs))] }
+
+// Perm returns a pseudo-random permutation of 0..n-1.
+func (r *RNG) Perm(n int) []int {
+	p := make([]int, n)
+	for i := range p {
+		p[i] = i
+	}
+	for i := n - 1; i > 0; i-- {
+		j := r.Intn(i + 1)
+		p[i], p[j] = p[j], p[i]
+	}
+	return p
+}
